@@ -1,5 +1,5 @@
 (* C01 custom record separators: pkg/input/line_reader.go SingleIRSLineReader / MultiIRSLineReader (--irs other than LF and
-   CR LF; the multi-character reader as repaired in /repo a96f6ff95 and 5d07e29dc) and the writers' ORS.  Definitions only. *)
+   CR LF; the multi-character reader as repaired in /repo a96f6ff95 and 3c48708b5) and the writers' ORS.  Definitions only. *)
 From Miller Require Import Base.Bytes Base.Record C01.Model.
 Open Scope char_scope.
 
